@@ -45,3 +45,21 @@ PROPS["C11"] = dict(
         "HeaderStore contract: height() is the height of the tip the candidate extends (its parent, if known, is that tip)",
     ],
 )
+
+PROPS["C12"] = dict(
+    verus_units=["valid"],
+    technique="Verus contracts on validation/src/block/mod.rs (validate_block, ensure_unique_transactions) + duplication lemma",
+    level_text="unbounded deductive proof (all transaction lists) that a block body is accepted iff it is non-empty, starts with a coinbase, "
+               "has a matching merkle root and pairwise distinct normalised txids; every list repeating a transaction is refused (CVE-2012-2459 family) by lemma",
+    level_note="is_coinbase / check_merkle_root / compute_ntxid are rust-bitcoin (uninterpreted); 'every valid block is accepted' additionally needs "
+               "'distinct valid transactions never share an ntxid' (hash collision freedom), assumed",
+    explanation="validate_block and ensure_unique_transactions extracted verbatim; loop invariant over the BTreeSet view gives the iff; "
+                "BlockValidator::validate_block verified after the reported R10 rewrite of map_err/and_then into a match.",
+    unverified_links=[
+        "rust-bitcoin Block::check_merkle_root, Transaction::compute_ntxid, Transaction::is_coinbase (dependencies, uninterpreted)",
+    ],
+    assumptions=COMMON_ASSUMPTIONS + [
+        "two distinct valid transactions never share a normalised txid (needed only for 'every valid block is accepted')",
+        "Result::map_err / and_then behave as their definition (rule R10 rewrite, listed in evidence)",
+    ],
+)
